@@ -13,7 +13,7 @@ import warnings
 
 import numpy as np
 
-from rv import probes
+from rv import probes, contracts
 from rv.gen import trees as G
 from rv.oracles import topo
 
@@ -471,6 +471,7 @@ def run(ctx):
     from swcgeom.core.swc_utils import subtree as st
     from swcgeom.core import tree_utils_impl as tui
 
+    contracts.install()
     tap = probes.CallTap({"to_sub_topology": st.to_sub_topology,
                           "propagate_removal": st.propagate_removal,
                           "get_subtree_impl": tui.get_subtree_impl})
@@ -478,6 +479,7 @@ def run(ctx):
         _workload(ctx)
     for k, v in tap.counts.items():
         ctx.count("tap_" + k, v)
+    contracts.report(ctx, "C06")
 
 
 def _workload(ctx):
